@@ -2010,6 +2010,17 @@ def hoist_nested_defs(fn: ast.AST) -> bool:
 # --------------------------------------------------------------------------------------------- alpha renaming
 def alpha_rename(fn: ast.AST) -> None:
     a = fn.args  # type: ignore[attr-defined]
+    # positional parameters are named by position (a renamed parameter of a function that is called positionally is not a
+    # change of behaviour; keyword-only parameters keep their names, they are part of every call)
+    pmap = {x.arg: f"p{i}" for i, x in enumerate(a.posonlyargs + a.args)}
+    if len(set(pmap.values())) == len(pmap) and not any(isinstance(n, (ast.Global, ast.Nonlocal)) for n in ast.walk(fn)):
+        taken = {n.id for n in ast.walk(fn) if isinstance(n, ast.Name)} | {x.arg for x in a.kwonlyargs}
+        if not (set(pmap.values()) & (taken - set(pmap))):
+            for x in a.posonlyargs + a.args:
+                x.arg = pmap[x.arg]
+            for n in ast.walk(fn):
+                if isinstance(n, ast.Name) and n.id in pmap:
+                    n.id = pmap[n.id]
     params = {x.arg for x in a.posonlyargs + a.args + a.kwonlyargs}
     if a.vararg:
         params.add(a.vararg.arg)
@@ -2183,6 +2194,78 @@ def _referenced_names(tree: ast.AST, skip: Iterable[ast.AST] = ()) -> Set[str]:
         elif isinstance(n, ast.Constant) and isinstance(n.value, str) and n.value.isidentifier():
             out.add(n.value)
         stack.extend(ast.iter_child_nodes(n))
+    return out
+
+
+def _rename_everywhere(tree: ast.AST, mapping: Dict[str, str]) -> None:
+    for n in ast.walk(tree):
+        if isinstance(n, FuncNode) and n.name in mapping:
+            n.name = mapping[n.name]
+        elif isinstance(n, ast.Attribute) and n.attr in mapping:
+            n.attr = mapping[n.attr]
+        elif isinstance(n, ast.Name) and n.id in mapping:
+            n.id = mapping[n.id]
+        elif isinstance(n, ast.Constant) and isinstance(n.value, str) and n.value in mapping:
+            n.value = mapping[n.value]
+        elif isinstance(n, ast.alias) and n.name in mapping:
+            n.name = mapping[n.name]
+        elif isinstance(n, ast.keyword) and n.arg in mapping:
+            pass
+
+
+_REF_IDENTIFIERS: Optional[Set[str]] = None
+
+
+def reference_identifiers() -> Set[str]:
+    """Every identifier that occurs anywhere in the reviewed sources."""
+    global _REF_IDENTIFIERS
+    if _REF_IDENTIFIERS is None:
+        import re
+
+        ids: Set[str] = set()
+        for dp, _, fns in os.walk(reference_dir()):
+            for fn in fns:
+                if fn.endswith(".py"):
+                    ids |= set(re.findall(r"[A-Za-z_][A-Za-z0-9_]*", open(os.path.join(dp, fn), encoding="utf-8").read()))
+        _REF_IDENTIFIERS = ids
+    return _REF_IDENTIFIERS
+
+
+def detect_renames(rel: str, src: str, tree: ast.Module) -> Dict[str, str]:
+    """{new name: reviewed name} for functions/methods that were merely renamed: a definition that exists only in the
+    current tree whose normal form, after putting the reviewed name back, equals the normal form of a definition (same
+    class or module level) that exists only in the reviewed tree.  The new name must not occur anywhere in the reviewed
+    sources (so that putting the old name back everywhere cannot capture something else)."""
+    ref = reference_module(rel)
+    if ref is None or ref[0] == src:
+        return {}
+    cf, rf = function_table(tree), function_table(ref[1])
+    new_keys = [k for k in cf if k not in rf]
+    gone_keys = [k for k in rf if k not in cf]
+    out: Dict[str, str] = {}
+    if not new_keys or not gone_keys:
+        return out
+    ids = reference_identifiers()
+    for nk in new_keys:
+        nname = nk.rsplit(".", 1)[-1]
+        if "#" in nname or nname in ids:
+            continue
+        owner = nk.rsplit(".", 1)[0] if "." in nk else ""
+        for gk in gone_keys:
+            gowner = gk.rsplit(".", 1)[0] if "." in gk else ""
+            gname = gk.rsplit(".", 1)[-1]
+            if gowner != owner or "#" in gname or gname in out.values():
+                continue
+            cand = copy.deepcopy(cf[nk][0])
+            _rename_everywhere(cand, {nname: gname})
+            try:
+                a = normal_form(cand, Ctx({}, {}, cf[nk][2], set()))
+                b = normal_form(rf[gk][0], Ctx({}, {}, rf[gk][2], set()))
+            except Exception:
+                continue
+            if a == b:
+                out[nname] = gname
+                break
     return out
 
 
